@@ -10,6 +10,7 @@ import (
 
 func init() {
 	pbt.Register("C01", "keepalive", RunKeep)
+	pbt.Register("C11", "keepalive", RunKeep)
 }
 
 func TestC01Keep(t *testing.T) {
@@ -21,6 +22,7 @@ func TestC01Keep(t *testing.T) {
 			Method:   rapid.SampledFrom([]string{"GET_PARAMETER", "GET_PARAMETER", "OPTIONS", "SET_PARAMETER"}).Draw(rt, "method"),
 			Pipeline: rapid.IntRange(1, 4).Draw(rt, "pipeline"),
 			PauseUs:  rapid.SampledFrom([]int{0, 50, 300}).Draw(rt, "pause_us"),
+			Tunnel:   rapid.SampledFrom([]string{"", "", "http", "ws"}).Draw(rt, "tunnel"),
 		}
 		done := pbt.Inflight("C01", "keepalive", c)
 		st, err := pbt.Safe(runKeep, c)
@@ -29,11 +31,36 @@ func TestC01Keep(t *testing.T) {
 			st = &keepStats{}
 		}
 		labels := []string{"keepalive:" + c.Method}
+		if c.Tunnel != "" {
+			labels = append(labels, "keepalive-tunnel:"+c.Tunnel)
+		}
 		if st.Lossy {
 			labels = append(labels, "queue-full-reported")
 		}
 		pbt.Count("C01", "keepalive_frames", int64(st.Frames))
 		pbt.Count("C01", "keepalive_responses_between_frames", int64(st.Responses))
 		pbt.Check(rt, "C01", "keepalive", c, st.Frames >= 100 && st.Responses >= 3, labels, func() error { return err })
+	})
+}
+
+// TestC11Keep runs the tunnelled variants for C11's clause "the server process does not panic ... whatever a peer sends on
+// a control connection - HTTP or WebSocket tunnel handshakes, interleaved frames in any state": a peer that plays through
+// a tunnel and keeps requests in flight makes the connection's routine and the session's writer share the tunnel.
+func TestC11Keep(t *testing.T) {
+	rapid.Check(t, func(rt *rapid.T) {
+		c := KeepCase{
+			TLS:      rapid.IntRange(0, 3).Draw(rt, "tls") == 0,
+			Packets:  rapid.IntRange(50, 400).Draw(rt, "packets"),
+			Size:     rapid.SampledFrom([]int{4, 100, 1000, 1400}).Draw(rt, "size"),
+			Method:   rapid.SampledFrom([]string{"GET_PARAMETER", "OPTIONS", "SET_PARAMETER"}).Draw(rt, "method"),
+			Pipeline: rapid.IntRange(1, 4).Draw(rt, "pipeline"),
+			PauseUs:  rapid.SampledFrom([]int{0, 50, 300}).Draw(rt, "pause_us"),
+			Tunnel:   rapid.SampledFrom([]string{"http", "ws", "ws"}).Draw(rt, "tunnel"),
+		}
+		st, err := pbt.SafeJ("C11", "keepalive", runKeep, c)
+		if st == nil {
+			st = &keepStats{}
+		}
+		pbt.Check(rt, "C11", "keepalive", c, st.Frames >= 100 && st.Responses >= 3, []string{"keepalive-tunnel:" + c.Tunnel}, func() error { return err })
 	})
 }
